@@ -1,0 +1,27 @@
+package fdpool
+
+import "github.com/go-git/go-git/v6/internal/verifhook"
+
+// verifEmit reports a pool step and the LRU order (front first) after it. It
+// must be called with p.mu held. It is a no-op unless built with the "verif" tag.
+func (p *Pool) verifEmit(ev string, m Member) {
+	if !verifhook.Enabled {
+		return
+	}
+	order := make([]any, 0, p.lru.Len()+1)
+	order = append(order, m)
+	for e := p.lru.Front(); e != nil; e = e.Next() {
+		order = append(order, e.Value.(*entry).m)
+	}
+	verifhook.Emit(poolEvent{Pool: p, Members: order}, ev, int64(p.capacity))
+}
+
+// poolEvent is the payload of a pool hook: Members[0] is the member the step
+// is about, Members[1:] the LRU order, most recently used first.
+type poolEvent struct {
+	Pool    *Pool
+	Members []any
+}
+
+// VerifMembers exposes the payload to the harness bridge.
+func (e poolEvent) VerifMembers() (*Pool, []any) { return e.Pool, e.Members }
